@@ -42,6 +42,7 @@ func (P) Monitor(c *hx.CaseRun) []hx.Failure {
 	claim := false
 	allFailed, prevBal := false, ""
 	xm := newXMon()
+	subUnit := map[string]string{} // tx id -> the `ain` op whose account input is zero or not a whole number of units
 	for i, op := range c.Ops {
 		ans := c.Impl[i]
 		toks_ := hx.Tokens(op)
@@ -57,9 +58,32 @@ func (P) Monitor(c *hx.CaseRun) []hx.Failure {
 			fs = append(fs, hx.Failure{Monitor: "fees_debited_equal_fees_credited", Class: "off-par-gas-price-admitted", Site: "types/transaction.go:IllegalGasLimitOrGasPrice",
 				Msg: "a transaction whose gas price is not the chain's fixed price was admitted (the sender pays gas*price, the collector is credited gas*par): " + op})
 		}
-		if r, ok := hx.Arg(toks_, "rem"); ok && r != "0" && strings.Contains(ans, "admit=ok") {
+		if r, ok := hx.Arg(toks_, "rem"); ok && r != "0" && toks_[0] == "ua" && strings.Contains(ans, "admit=ok") {
 			fs = append(fs, hx.Failure{Monitor: "amount_range_enforced", Class: "sub-unit-account-output-admitted", Site: "types/tx_utxo.go:checkTxSemantic",
 				Msg: "an account output that is not a whole number of commitment units was admitted (its commitment covers amount/unit, the remainder is credited out of nothing): " + op})
+		}
+		if toks_[0] == "ain" {
+			rem, _ := hx.Arg(toks_, "rem")
+			am, _ := hx.Arg(toks_, "amount")
+			fu, _ := hx.Arg(toks_, "feeu")
+			if (rem != "" && rem != "0") || (am == "0" && fu == "0") {
+				if id, ok := hx.Arg(hx.Tokens(ans), "id"); ok {
+					subUnit[id] = op
+				}
+				if strings.Contains(ans, "admit=ok") {
+					fs = append(fs, hx.Failure{Monitor: "amount_range_enforced", Class: "sub-unit-account-input-admitted", Site: "types/tx_utxo.go:checkTxSemantic",
+						Msg: "a confidential transaction whose account input is zero or not a whole number of commitment units was admitted (its commitment is built from floor(amount/unit): the remainder is destroyed): " + op})
+				}
+			}
+		}
+		if (toks_[0] == "block" || toks_[0] == "forceblock") && strings.HasPrefix(ans, "h=") {
+			ids, _ := hx.Arg(hx.Tokens(ans), "txs")
+			for _, id := range hx.SplitComma(ids) {
+				if bad, ok := subUnit[id]; ok {
+					fs = append(fs, hx.Failure{Monitor: "amount_range_enforced", Class: "sub-unit-account-input-committed", Site: "types/tx_utxo.go:checkTxSemantic",
+						Msg: "a block was committed that holds a confidential transaction whose account input is zero or not a whole number of commitment units: " + bad})
+				}
+			}
 		}
 		if _, ok := hx.Arg(toks_, "hi"); ok && (strings.Contains(ans, "admit=ok") || strings.HasPrefix(ans, "id=")) {
 			fs = append(fs, hx.Failure{Monitor: "amount_range_enforced", Class: "oversize-amount-accepted", Site: "types/tx_utxo.go:BigInt2Hash",
@@ -273,6 +297,9 @@ func (P) Generate(g *hx.Gen) {
 	for k, nu := 0, g.Pick(40, 400); k < nu; k++ {
 		g.Case("underfunded forced blocks", WithReceipts(UnderfundedCase(g)), true)
 	}
+	for k, ns := 0, g.Pick(30, 200); k < ns; k++ {
+		g.Case("account inputs that are not a whole number of commitment units", WithReceipts(SubUnitCase(g)), true)
+	}
 	g.Case("corpus: creations, value-moving contract, token calls, refused shapes", WithReceipts(ContractCorpus), true)
 	for k, nc := 0, g.Pick(50, 400); k < nc; k++ {
 		g.Case("contracts: creation / value moved by contracts / token value / refused shapes", WithReceipts(ContractCase(g)), true)
@@ -449,12 +476,13 @@ func WithReceipts(ops []string) []string {
 
 type execRef struct{ c *appsim.ChainExec }
 
-func (e execRef) Exec(op string) string { return e.c.Exec(op) }
+func (e execRef) Exec(op string) string      { return e.c.Exec(op) }
 func execOf(c *appsim.ChainExec) hx.Executor { return execRef{c} }
 
-// PayDeadContractInSameBlock gates the cases in which a transaction pays a contract that an EARLIER transaction of the same
-// block destroyed (SELFDESTRUCT): on the unchanged tree that value vanishes (proposed/C06-pay-selfdestructed-same-block.md).
-const PayDeadContractInSameBlock = false
+// PayDeadContractInSameBlock switches on the cases in which a transaction pays a contract that an EARLIER transaction of the same
+// block destroyed (SELFDESTRUCT): on the unchanged tree that value vanishes (known finding pay-selfdestructed-same-block; the
+// monitors give exactly that situation, by exactly that amount, its own class; the model mirrors it: Model.LedgerX.endBlock).
+const PayDeadContractInSameBlock = true
 
 // ContractCorpus: one hand-made chain through every new op.
 var ContractCorpus = []string{
@@ -684,9 +712,17 @@ type xMon struct {
 	burn     int64               // designed destruction expected in the block just committed (units)
 	burnAt   map[int]int64       // per created index: what its self-destruction in favour of itself destroyed
 	lastRecs bool
+	ckey     map[string]int // (sender, nonce, kind) of a `create` op -> index of the creation address it aims at
+	deadPaid int64          // what the block just committed paid (and left) to instances AFTER their destruction in that block (units)
+	deadAt   map[int]int64  // the same per created index
 }
 
-func newXMon() *xMon { return &xMon{opOf: map[string][]string{}, burnAt: map[int]int64{}} }
+func newXMon() *xMon {
+	return &xMon{opOf: map[string][]string{}, burnAt: map[int]int64{}, ckey: map[string]int{}, deadAt: map[int]int64{}}
+}
+
+const deadPayClass = "payment-to-contract-destroyed-earlier-in-block"
+const deadPaySite = "app/state_processor.go:Process"
 
 func parseVec(s string) []int64 {
 	var out []int64
@@ -738,38 +774,104 @@ func (x *xMon) step(op string, toks []string, ans string) []hx.Failure {
 				Msg: "a confidential transaction with an account input AND an account output, with two account outputs, or with an account output to a contract was admitted " +
 					"(transitOutputs / payIntrinsicGas / refundGas handle at most one account-side output correctly): " + op})
 		}
+	case "create":
+		f, _ := hx.Arg(toks, "from")
+		n, _ := hx.Arg(toks, "nonce")
+		k, _ := hx.Arg(toks, "kind")
+		if _, ok := x.ckey[f+"/"+n+"/"+k]; !ok && ans != "bad-kind" {
+			x.ckey[f+"/"+n+"/"+k] = len(x.ckey)
+		}
 	case "block", "forceblock":
-		x.burn = 0
-		x.burnAt = map[int]int64{}
+		x.burn, x.deadPaid = 0, 0
+		x.burnAt, x.deadAt = map[int]int64{}, map[int]int64{}
 		if !strings.HasPrefix(ans, "h=") || !x.have {
 			return fs
+		}
+		// From the op lines alone (receipt statuses from the dry run, st=): follow what every created instance holds through the
+		// block.  A SELFDESTRUCT in favour of the instance itself destroys its holdings by design; a SELFDESTRUCT marks the instance
+		// destroyed, and what a LATER transaction of the same block leaves with it is the known finding's amount.
+		cb := append([]int64{}, x.cur["c"]...)
+		grow := func(j int) {
+			for len(cb) <= j {
+				cb = append(cb, 0)
+			}
+		}
+		dead := map[int]bool{}
+		num := func(t []string, k string) int64 {
+			v, _ := hx.Arg(t, k)
+			var n int64
+			fmt.Sscan(v, &n)
+			return n
 		}
 		ids, _ := hx.Arg(a, "txs")
 		for _, id := range hx.SplitComma(ids) {
 			t := x.opOf[id]
-			if len(t) == 0 || t[0] != "mcall" {
+			if len(t) == 0 {
 				continue
 			}
-			m, _ := hx.Arg(t, "m")
-			to, _ := hx.Arg(t, "to")
-			j, _ := hx.Arg(t, "at")
-			st, _ := hx.Arg(t, "st")
-			if m == "2" && j != "" && to == "c"+j && st == "1" {
-				// a contract self-destructing in favour of itself: its holdings (and what this call brought) are destroyed — by design
-				var ji int
-				var v int64
-				fmt.Sscan(j, &ji)
-				vs, _ := hx.Arg(t, "value")
-				fmt.Sscan(vs, &v)
-				d := at(x.cur["c"], ji) + v
-				x.burn += d
-				x.burnAt[ji] += d
+			if st, _ := hx.Arg(t, "st"); st != "1" {
+				continue
+			}
+			switch t[0] {
+			case "create":
+				f, _ := hx.Arg(t, "from")
+				n, _ := hx.Arg(t, "nonce")
+				k, _ := hx.Arg(t, "kind")
+				if j, ok := x.ckey[f+"/"+n+"/"+k]; ok {
+					grow(j)
+					cb[j] += num(t, "value")
+				}
+			case "xferx":
+				if to, _ := hx.Arg(t, "to"); strings.HasPrefix(to, "c") {
+					var j int
+					fmt.Sscan(to[1:], &j)
+					grow(j)
+					cb[j] += num(t, "amount")
+				}
+			case "mcall":
+				js, ok := hx.Arg(t, "at")
+				if tk, _ := hx.Arg(t, "tok"); !ok || js == "" || tk == "1" {
+					continue
+				}
+				var j int
+				fmt.Sscan(js, &j)
+				grow(j)
+				v := num(t, "value")
+				to, _ := hx.Arg(t, "to")
+				switch num(t, "m") {
+				case 0:
+					cb[j] += v
+				case 7:
+					cb[j] += v - v/2
+				case 8:
+					if to != "c"+js {
+						cb[j] = 0
+					} else {
+						cb[j] += v
+					}
+				case 2:
+					if to == "c"+js && !dead[j] {
+						x.burn += cb[j] + v
+						x.burnAt[j] += cb[j] + v
+					}
+					cb[j] = 0
+					dead[j] = true
+				}
+			}
+		}
+		for j := range dead {
+			if cb[j] > 0 {
+				x.deadPaid += cb[j]
+				x.deadAt[j] = cb[j]
 			}
 		}
 	case "balx":
 		cur := parseBuckets(ans, xKeys)
 		if x.have {
-			if got, want := at(cur["supply"], 0), at(x.cur["supply"], 0)-x.burn; got != want {
+			if got, want := at(cur["supply"], 0), at(x.cur["supply"], 0)-x.burn; got != want && x.deadPaid > 0 && got == want-x.deadPaid {
+				fs = append(fs, hx.Failure{Monitor: "native_supply_conserved", Class: deadPayClass, Site: deadPaySite,
+					Msg: fmt.Sprintf("total native supply dropped by %d units: exactly what transactions of this block paid to instances that an earlier transaction of the SAME block had destroyed (both receipts status 1)", x.deadPaid)})
+			} else if got != want {
 				fs = append(fs, hx.Failure{Monitor: "native_supply_conserved", Class: "native-supply-changed", Site: "app/state_transition.go:transitOutputs",
 					Msg: fmt.Sprintf("total native supply over every observed address (accounts, foundation, zero address, coinbase, test contracts, beneficiaries, created contracts, pool) is %d units, expected %d (designed destruction in this block: %d)", got, want, x.burn)})
 			}
@@ -797,7 +899,10 @@ func (x *xMon) step(op string, toks []string, ans string) []hx.Failure {
 				if k == "c" {
 					want -= x.burnAt[i]
 				}
-				if diff != want {
+				if k == "c" && diff != want && x.deadAt[i] > 0 && diff == want-x.deadAt[i] {
+					fs = append(fs, hx.Failure{Monitor: "audit_log_matches_state", Class: deadPayClass, Site: deadPaySite,
+						Msg: fmt.Sprintf("created instance %d: the block's balance records credit it %d units more than the state shows: exactly what was paid to it after an earlier transaction of the same block destroyed it", i, x.deadAt[i])})
+				} else if diff != want {
 					fs = append(fs, hx.Failure{Monitor: "audit_log_matches_state", Class: "state-change-differs-from-records", Site: "app/state_transition.go:genTransitTxRecord",
 						Msg: fmt.Sprintf("bucket %s[%d] changed by %d units over the block, the application's own balance records of that block say %d (a record the state does not reflect, or a movement without a record): %s", k, i, diff, want, ans)})
 				}
@@ -809,4 +914,70 @@ func (x *xMon) step(op string, toks []string, ans string) []hx.Failure {
 		}
 	}
 	return fs
+}
+
+// SubUnitCase: account -> confidential transactions whose ACCOUNT INPUT is not a whole number of commitment units (k units + rem
+// wei, k = 0, 1, many, rem = 1, half a unit, one unit - 1) or is zero: both halves of the semantic check's test
+// (`Amount >= one unit` and `Amount mod unit == 0`).  Every one must be refused by admission and must never be committed,
+// also when a Byzantine proposer forces it into a block (alone, before and after a valid transaction).  Ids are exact.
+func SubUnitCase(g *hx.Gen) []string {
+	r := g.Rng
+	ops := []string{hx.CaseOp("subunit"), fmt.Sprintf("chain trie=%d accts=3 wallets=2 seed=%d", r.Intn(2), 1+r.Intn(1000)), "bal"}
+	add := func(f string, a ...interface{}) { ops = append(ops, fmt.Sprintf(f, a...)) }
+	nonce := []int{0, 0, 0}
+	id := 0
+	rems := []int64{1, 5000000000, 9999999999}
+	for k, n := 0, 2+r.Intn(4); k < n; k++ {
+		from := r.Intn(3)
+		rem := rems[r.Intn(3)]
+		switch r.Intn(5) {
+		case 0: // many units + rem; at an exact step of the value-proportional fee the remainder also makes the fee too low inside a block
+			amount := 20000000000 + int64(r.Intn(1000000))*10000
+			if r.Intn(3) == 0 {
+				amount = int64(1+r.Intn(300)) * 100000000
+			}
+			add("ain from=%d w=%d amount=%d nonce=%d rem=%d", from, r.Intn(2), amount, nonce[from], rem)
+			g.Count("subunit:many+rem")
+		case 1:
+			add("ain from=%d w=%d amount=1 nonce=%d feeu=0 rem=%d", from, r.Intn(2), nonce[from], rem)
+			g.Count("subunit:one+rem")
+		case 2:
+			add("ain from=%d w=%d amount=0 nonce=%d feeu=0 rem=%d", from, r.Intn(2), nonce[from], rem)
+			g.Count("subunit:below-one-unit")
+		case 3:
+			add("ain from=%d w=%d amount=0 nonce=%d feeu=0", from, r.Intn(2), nonce[from])
+			g.Count("subunit:zero-input")
+		default: // one whole unit more than the fee... with a remainder on a fee-paying input
+			add("ain from=%d w=%d amount=1 nonce=%d feeu=5000000 rem=%d", from, r.Intn(2), nonce[from], rem)
+			g.Count("subunit:one+rem+fee")
+		}
+		bad := id
+		id++
+		switch r.Intn(4) {
+		case 0:
+			add("forceblock ids=%d", bad)
+		case 1, 2: // with a valid transfer of another sender, before or after
+			o := (from + 1 + r.Intn(2)) % 3
+			add("xfer from=%d to=%d amount=%d nonce=%d", o, r.Intn(3), 1+r.Intn(1000), nonce[o])
+			ok := id
+			id++
+			if r.Intn(2) == 0 {
+				add("forceblock ids=%d,%d", bad, ok)
+			} else {
+				add("forceblock ids=%d,%d", ok, bad)
+			}
+			add("block") // the valid one is still pending: it commits now
+			nonce[o]++
+		default:
+			add("replay id=%d", bad)
+			add("block")
+		}
+		add("bal")
+		add("nonces")
+	}
+	// a whole-unit input of the same sender still works
+	add("ain from=0 w=0 amount=20000000000 nonce=%d", nonce[0])
+	add("block")
+	add("bal")
+	return ops
 }
